@@ -25,7 +25,7 @@ def classify(prog, detail):
 
 def run(ck, families=None):
     quick = ck.quick()
-    matrices = [("m-ops", 0), ("m-index", 0), ("m-builtin", 0), ("m-call", 0), ("m-closure", 0), ("m-assign", 0)]
+    matrices = [("m-ops", 0), ("m-index", 0), ("m-builtin", 0), ("m-call", 0), ("m-closure", 0), ("m-assign", 0), ("m-equal", 0)]
     fams = families or ([("smoke", 0), ("random", 400), ("random-clean", 200), ("random-minparens", 300), ("alias", 300), ("modules", 60), ("shapes", 1500), ("scopes", 300), ("immut", 300), ("tailcalls", 0)] + matrices if quick
                         else [("smoke", 0), ("random", 12000), ("random-clean", 8000), ("random-minparens", 6000), ("alias", 6000), ("modules", 3000), ("shapes", 0), ("dce", 5000), ("errs", 3000), ("scopes", 5000), ("immut", 5000), ("tailcalls", 0), ("variants", 1500)] + matrices)
     progs = []
